@@ -8,41 +8,57 @@ package vsync
 
 import (
 	"sync"
+	"unsafe"
 
 	"verif/harness/verifrt"
 )
 
 // BlockHook, when set, is called each time an acquisition fails; the
-// scheduler uses it to mark the current thread as blocked and switch.
-var BlockHook func()
+// scheduler marks the calling thread as blocked on addr and runs another one.
+// It returns false if the caller is not a managed thread (or nobody else can
+// run), in which case the caller blocks for real.
+var BlockHook func(addr uintptr) bool
+
+// UnblockHook, when set, is told that the lock at addr was released.
+var UnblockHook func(addr uintptr)
 
 // RWMutex has the method set of sync.RWMutex that golang-set uses.
 type RWMutex struct{ mu sync.RWMutex }
 
+func (m *RWMutex) addr() uintptr { return uintptr(unsafe.Pointer(m)) }
+
 func (m *RWMutex) Lock() {
 	verifrt.Point()
 	for !m.mu.TryLock() {
-		if BlockHook != nil {
-			BlockHook()
-		} else {
+		if BlockHook == nil || !BlockHook(m.addr()) {
 			m.mu.Lock()
 			return
 		}
 	}
 }
 
-func (m *RWMutex) Unlock() { m.mu.Unlock(); verifrt.Point() }
+func (m *RWMutex) Unlock() {
+	m.mu.Unlock()
+	if UnblockHook != nil {
+		UnblockHook(m.addr())
+	}
+	verifrt.Point()
+}
 
 func (m *RWMutex) RLock() {
 	verifrt.Point()
 	for !m.mu.TryRLock() {
-		if BlockHook != nil {
-			BlockHook()
-		} else {
+		if BlockHook == nil || !BlockHook(m.addr()) {
 			m.mu.RLock()
 			return
 		}
 	}
 }
 
-func (m *RWMutex) RUnlock() { m.mu.RUnlock(); verifrt.Point() }
+func (m *RWMutex) RUnlock() {
+	m.mu.RUnlock()
+	if UnblockHook != nil {
+		UnblockHook(m.addr())
+	}
+	verifrt.Point()
+}
